@@ -389,6 +389,19 @@ theorem pDecide_eq (fl : Flags) (g : Nat) (t : Ev) (ht : t.isTerminal = true) (u
   | error e => simp only [pDecide, Flags.resetsOn]; by_cases h : fl.onError = true <;> simp [h]
   | complete => simp only [pDecide, Flags.resetsOn]; by_cases h : fl.onComplete = true <;> simp [h]
 
+theorem pDecide_cases' (fl : Flags) (g : Nat) (t : Ev) (ht : t.isTerminal = true) (u : St) :
+    (fl.resetsOn t = true ∧ pDecide fl g t u = reset g u) ∨
+    (fl.resetsOn t = false ∧ pDecide fl g t u = { u with flagE := true }) ∨
+    (fl.resetsOn t = false ∧ pDecide fl g t u = { u with flagC := true }) := by
+  rw [pDecide_eq fl g t ht u]
+  cases hr : fl.resetsOn t with
+  | true => exact Or.inl ⟨rfl, by simp⟩
+  | false =>
+    cases t with
+    | next v => simp [Ev.isTerminal] at ht
+    | error e => exact Or.inr (Or.inl ⟨rfl, by simp⟩)
+    | complete => exact Or.inr (Or.inr ⟨rfl, by simp⟩)
+
 /-- the state just before the broadcast: proxy closed, reset-or-latch decided, subject terminated -/
 theorem tinv_start {s : St} {g : Nat} (t : Ev) (_ht : t.isTerminal = true) (hi : Inv s)
     (hsub : s.subject = some g) (ha : GenActive s g) (s2 : St)
